@@ -15,7 +15,7 @@ SPEC_PRIMS = {
     "is_none", "is_bool", "is_int", "is_float", "is_num", "is_str", "is_arr", "is_obj", "is_nothing", "is_nodelist",
     "is_tuple", "is_pattern", "is_container", "nvals", "prog_len", "prog_at", "is_gen", "is_slice", "is_enum", "is_exc", "is_userfunc", "Node", "NodeList", "Ctx", "nkeys", "key_at", "val_at", "has_key",
     "get", "num", "seq", "pending", "implies", "iff", "old", "raised", "exc_is", "same", "slice_of", "int_of", "str_of",
-    "codepoint", "char", "ucall", "regex_fullmatch", "regex_search", "iregexp_ok", "str_count", "str_rfind", "int_str", "exc_message",
+    "codepoint", "char", "ucall", "regex_fullmatch", "regex_search", "iregexp_ok", "str_count", "str_rfind", "int_str", "exc_message", "utf8",
     "canonical", "is_hexdigit_code", "finditer_outcome", "compile_outcome", "is_pynum", "is_pylist", "is_pyobject", "obj_eq", "slice_parts", "py_equal", "float_of", "truthy", "mk_list", "mk_tuple", "enum_ord", "func_id",
 }
 
@@ -593,6 +593,8 @@ class CallMixin(ExprMixin):
         if name == "str_rfind":
             f = self.uf("str_rfind", z3.StringSort(), z3.StringSort(), z3.IntSort(), z3.IntSort(), z3.IntSort())
             return self.int_(f(self.str_term(a[0]), self.str_term(a[1]), self.int_term(a[2]), self.int_term(a[3])))
+        if name == "utf8":
+            return T("list", self.utf8_bytes(self.str_term(a[0])))
         if name == "exc_message":
             return T("str", self.uf("exc_message", self.V, z3.StringSort())(box()))
         if name == "int_str":
@@ -608,6 +610,16 @@ class CallMixin(ExprMixin):
         raise Unsupported("spec primitive " + name)
 
     # ---------------- constructors -----------------
+    def utf8_bytes(self, s):
+        """str.encode(): the UTF-8 code units as a list of ints (uninterpreted; every unit is an int in 0..255)"""
+        f = self.uf("utf8_bytes", z3.StringSort(), self.U.SeqV)
+        b = f(s)
+        j = z3.Int("uj!")
+        e = b[j]
+        self.axioms.append(z3.ForAll([j], z3.Implies(z3.And(j >= 0, j < z3.Length(b)),
+                                                      z3.And(self.U.is_("VInt", e), self.U.acc("i", e) >= 0, self.U.acc("i", e) <= 255))))
+        return b
+
     def bi_re_compile(self, args, kwargs, st):
         """a compiled pattern is an opaque value determined by its source text"""
         f = self.uf("re_pattern_id", z3.StringSort(), z3.IntSort())
@@ -895,6 +907,8 @@ class CallMixin(ExprMixin):
             return self.ok(T("str", f(self.str_term(recv), self.it_to_seq(it))), st)
         if name == "replace" and len(args) == 2:
             return self.ok(T("str", self.uf("str_replace_all", z3.StringSort(), z3.StringSort(), z3.StringSort(), z3.StringSort())(self.str_term(recv), self.str_term(args[0]), self.str_term(args[1]))), st)
+        if name == "encode" and not args:
+            return self.ok(T("list", self.utf8_bytes(self.str_term(recv))), st)
         if name == "lower" and not args:
             return self.ok(T("str", self.uf("str_lower", z3.StringSort(), z3.StringSort())(self.str_term(recv))), st)
         raise Unsupported(f"method .{name}() on builtin value")
